@@ -290,7 +290,19 @@ func runCh(c ChCase) error {
 			if i > 0 {
 				who = "a churn worker"
 			}
-			return fmt.Errorf("%s's session no longer gets a Pong for its Ping (%v): its message handling is stalled", who, e)
+			// the churn is over; a server that is merely working off its backlog (tens of thousands of visitor streams,
+			// under -race on a saturated machine) answers late, a wedged one never does
+			if _, e2 := sc.Ping(&msg.Ping{}, 20*time.Second); e2 == nil {
+				fx.Note("frps_churn", "%s's Pong took more than 4 s after the churn had stopped (answered within 24 s): slow, not stalled", who)
+				continue
+			}
+			if !ch.alive() {
+				return fmt.Errorf("frps terminated:\n%s", tail(ch.stderr.String()))
+			}
+			if !sc.ControlAlive() {
+				continue
+			}
+			return fmt.Errorf("%s's session gets no Pong for its Pings within 24 s after the churn stopped (%v): its message handling is stalled", who, e)
 		}
 	}
 	cn, e := net.DialTimeout("tcp", fmt.Sprintf("127.0.0.1:%d", blk.Port(fx.SlotAllow)), 2*time.Second)
